@@ -111,6 +111,81 @@ def shared_effects(it, state_obj=None):
     return bad
 
 
+SKIP_DATA_MODEL = {'__init__', 'marshal', 'unmarshal', 'validate',
+                   '__init_subclass__', '__new__', '__set__', '__get__',
+                   '__setattr__', '__delattr__', '__set_name__'}
+
+
+def data_model_effects(ctx):
+    """Every other method of the frame / property classes (the mapping
+    protocol, __repr__, __eq__, accessors ...) run on a symbolic instance
+    with symbolic arguments: -> [(where, effect)] of writes to module- or
+    class-level objects, and the number of runs.  Cached on the context."""
+    cached = ctx.__dict__.get('_data_model_effects')
+    if cached is not None:
+        return cached
+    prog = ctx.prog
+    out = []
+    runs = 0
+    classes = [ci for _, ci in ctx.index_mapping()
+               if isinstance(ci, ClassInfo)]
+    for short in ('commands.Basic.Properties', 'header.ContentHeader',
+                  'header.ProtocolHeader', 'body.ContentBody',
+                  'heartbeat.Heartbeat'):
+        c_ = prog.classes.get('pamqp.' + short)
+        if c_ is not None:
+            classes.append(c_)
+    done = set()
+    for ci in classes:
+        names = []
+        for c in prog.mro(ci):
+            if isinstance(c, ClassInfo):
+                for nm in c.methods:
+                    if nm not in names:
+                        names.append(nm)
+        try:
+            slots = tuple(ctx.slots_of(ci))
+        except Exception:
+            slots = ()
+        for nm in names:
+            if nm in SKIP_DATA_MODEL:
+                continue
+            mf = prog.find_method(ci, nm)
+            if mf is None or mf.is_generator and False:
+                continue
+            # one run per (function, argument list): the classes differ
+            # only in their tables
+            key = (mf.qualname, slots)
+            if key in done:
+                continue
+            done.add(key)
+            it = ctx.interp()
+            st = ctx.new_state()
+            try:
+                ref = ctx.symbolic_instance(it, st, ci)
+            except Exception:
+                continue
+            a = mf.node.args
+            params = [p.arg for p in a.posonlyargs + a.args]
+            argv = []
+            if mf.kind == 'classmethod':
+                argv, params = [ci], params[1:]
+            elif mf.kind != 'staticmethod':
+                argv, params = [ref], params[1:]
+            argv += [Sym('param', p) for p in params]
+            try:
+                it.run_function(mf, argv, {}, st)
+            except (AnalysisError, I.Unsupported, I._NoReturn):
+                continue
+            runs += 1
+            for e in shared_effects(it):
+                if e.kind == 'raise-shared-exception':
+                    continue
+                out.append(('%s.%s' % (ci.short, nm), e))
+    ctx.__dict__['_data_model_effects'] = (out, runs)
+    return out, runs
+
+
 def run(chk, ctx):
     for r, t in RULES.items():
         chk.rule(r, t)
@@ -269,6 +344,9 @@ def run(chk, ctx):
                                o.value[1].id in o.state.store,
                                'returns a %s created in this call' %
                                ob.kind, site='pamqp/decode.py')
+    dm, dm_runs = data_model_effects(ctx)
+    runs += dm_runs
+    bad_effects.extend(dm)
     seen = set()
     for where, e in bad_effects:
         k = (where.split('(')[0].split('[')[0], e.kind, str(e.target),
@@ -424,27 +502,26 @@ def check_fresh(chk, f, r, cons, rule='C16.F'):
 
 
 def import_time_only(prog, fi):
-    """Every reference to the (module-level) function is a decorator of a
-    definition at module or class level."""
+    """Every reference to the (module-level) function is in code that runs
+    while the package is imported (module / class level statements,
+    decorators of definitions at that level), none inside a function
+    body."""
     if fi.owner is not None or isinstance(fi.node, ast.Lambda):
         return False
     name = fi.node.name
-    deco_ids = set()
+    # nodes that run when some function is called (function bodies), as
+    # opposed to module / class level code, decorators and defaults, which
+    # run while the module is imported
     inside_funcs = set()
     for mi in prog.modules.values():
         for n in ast.walk(mi.tree):
-            if isinstance(n, (ast.FunctionDef, ast.AsyncFunctionDef,
-                              ast.Lambda)):
-                for c in ast.walk(n):
-                    if c is not n:
+            if isinstance(n, (ast.FunctionDef, ast.AsyncFunctionDef)):
+                for st_ in n.body:
+                    for c in ast.walk(st_):
                         inside_funcs.add(id(c))
-        for n in ast.walk(mi.tree):
-            if isinstance(n, (ast.ClassDef, ast.FunctionDef)) and \
-                    id(n) not in inside_funcs:
-                for d in n.decorator_list:
-                    if not isinstance(d, ast.Call):
-                        for c in ast.walk(d):
-                            deco_ids.add(id(c))
+            elif isinstance(n, ast.Lambda):
+                for c in ast.walk(n.body):
+                    inside_funcs.add(id(c))
     refs = 0
     for mi in prog.modules.values():
         for n in ast.walk(mi.tree):
@@ -460,7 +537,7 @@ def import_time_only(prog, fi):
                     hit = False
             if hit:
                 refs += 1
-                if id(n) not in deco_ids:
+                if id(n) in inside_funcs:
                     return False
     return refs > 0
 
